@@ -17,10 +17,8 @@ import (
 	"fmt"
 	"net/http"
 	"runtime"
-	"sort"
 	"strconv"
 	"strings"
-	"sync"
 	"sync/atomic"
 	"time"
 
@@ -45,12 +43,8 @@ type Case struct {
 	ParentNs *int64  `json:"parent_ns"` // parent deadline, offset from the start; nil = none
 	H0       [][]any `json:"h0"`
 	Script   [][]any `json:"script"`
+	Fl       bool    `json:"fl"` // the real writer is an http.Flusher
 	D        DSpec   `json:"d"`
-}
-
-type Hdr struct {
-	K  int64   `json:"k"`
-	Vs []int64 `json:"vs"`
 }
 
 type Out struct {
@@ -61,13 +55,7 @@ type Out struct {
 	SOut     string   `json:"sout"` // wait | ret | panic
 	PKind    string   `json:"pkind"`
 	PVal     int64    `json:"pval"`
-	Status   int      `json:"status"` // 0 = header not written
-	Snap     []Hdr    `json:"snap"`
-	Live     []Hdr    `json:"live"`
-	Body     []int    `json:"body"`
-	Extra    int      `json:"extra"`   // header names outside the script's namespace
-	Late     int      `json:"late"`    // real-writer calls after ServeHTTP returned
-	Foreign  int      `json:"foreign"` // real-writer calls from another goroutine than ServeHTTP's
+	W        WOut     `json:"w"`
 	HasDl    bool     `json:"has_dl"`
 	DlSeenNs int64    `json:"dl_seen_ns"`
 	T1Ns     int64    `json:"t1_ns"`
@@ -75,146 +63,8 @@ type Out struct {
 	Err      string   `json:"err,omitempty"`
 }
 
-// ---------------------------------------------------------------------------
-// the real ResponseWriter test double (net/http semantics: the first
-// WriteHeader/Write freezes status and headers)
-
-func gid() int64 {
-	var buf [64]byte
-	n := runtime.Stack(buf[:], false)
-	f := strings.Fields(string(buf[:n]))
-	if len(f) < 2 {
-		return -1
-	}
-	id, _ := strconv.ParseInt(f[1], 10, 64)
-	return id
-}
-
-type recw struct {
-	mu      sync.Mutex
-	hdr     http.Header
-	wrote   bool
-	code    int
-	snap    http.Header
-	body    []byte
-	sgid    int64
-	sret    *atomic.Bool
-	late    int
-	foreign int
-}
-
-func (w *recw) note() {
-	if w.sret.Load() {
-		w.late++
-	}
-	if gid() != w.sgid {
-		w.foreign++
-	}
-}
-
-func (w *recw) Header() http.Header {
-	w.mu.Lock()
-	defer w.mu.Unlock()
-	w.note()
-	return w.hdr
-}
-
-func (w *recw) WriteHeader(code int) {
-	w.mu.Lock()
-	defer w.mu.Unlock()
-	w.note()
-	w.writeHeader(code)
-}
-
-func (w *recw) writeHeader(code int) {
-	if w.wrote {
-		return
-	}
-	if code < 100 || code > 999 {
-		panic(fmt.Sprintf("invalid WriteHeader code %v", code))
-	}
-	w.wrote = true
-	w.code = code
-	w.snap = w.hdr.Clone()
-}
-
-func (w *recw) Write(p []byte) (int, error) {
-	w.mu.Lock()
-	defer w.mu.Unlock()
-	w.note()
-	w.writeHeader(200)
-	w.body = append(w.body, p...)
-	return len(p), nil
-}
-
-func hname(k int64) string { return "X-H" + strconv.FormatInt(k, 10) }
-func hval(v int64) string  { return "v" + strconv.FormatInt(v, 10) }
-
-func hdrOut(h http.Header) ([]Hdr, int) {
-	res := []Hdr{}
-	extra := 0
-	for name, vals := range h {
-		if !strings.HasPrefix(name, "X-H") {
-			extra++
-			continue
-		}
-		k, err := strconv.ParseInt(name[3:], 10, 64)
-		if err != nil {
-			extra++
-			continue
-		}
-		vs := []int64{}
-		for _, s := range vals {
-			v, err := strconv.ParseInt(strings.TrimPrefix(s, "v"), 10, 64)
-			if err != nil || !strings.HasPrefix(s, "v") {
-				v = -1
-			}
-			vs = append(vs, v)
-		}
-		res = append(res, Hdr{k, vs})
-	}
-	sort.Slice(res, func(i, j int) bool { return res[i].K < res[j].K })
-	return res, extra
-}
-
-// ---------------------------------------------------------------------------
-
-type pv int64
-
-type hcmd struct {
-	selfCancel bool
-	yield      int
-}
-
-type hack struct {
-	obs   []any
-	ended bool // returned or panicked
-	wto   bool
-	ctxd  bool
-}
-
-func num(v any) int64 { return int64(v.(float64)) }
-
-func classifyPanic(p any) (string, int64) {
-	switch v := p.(type) {
-	case pv:
-		return "user", int64(v)
-	case string:
-		const pre = "invalid WriteHeader code "
-		if strings.HasPrefix(v, pre) {
-			n, err := strconv.ParseInt(strings.TrimSpace(v[len(pre):]), 10, 64)
-			if err == nil {
-				return "badcode", n
-			}
-		}
-	}
-	return "other", 0
-}
-
-const waitS = 2 * time.Second
-
 func runRest(c Case) (out Out) {
-	out = Out{ID: c.ID, RetAtD: -1, Sched: []string{}, HObs: [][]any{}, Body: []int{}}
+	out = Out{ID: c.ID, RetAtD: -1, Sched: []string{}, HObs: [][]any{}}
 	gate := make(chan hcmd)
 	acks := make(chan hack, len(c.Script)+4)
 	var sret atomic.Bool
@@ -264,47 +114,12 @@ func runRest(c Case) (out Out) {
 					runtime.Gosched()
 				}
 			}
-			switch a[0].(string) {
-			case "set":
-				w.Header().Set(hname(num(a[1])), hval(num(a[2])))
-				acks <- hack{obs: []any{"none"}}
-			case "add":
-				w.Header().Add(hname(num(a[1])), hval(num(a[2])))
-				acks <- hack{obs: []any{"none"}}
-			case "del":
-				w.Header().Del(hname(num(a[1])))
-				acks <- hack{obs: []any{"none"}}
-			case "wh":
-				w.WriteHeader(int(num(a[1])))
-				acks <- hack{obs: []any{"none"}}
-			case "w":
-				bs := a[1].([]any)
-				p := make([]byte, len(bs))
-				for i, b := range bs {
-					p[i] = byte(num(b))
-				}
-				n, err := w.Write(p)
-				switch {
-				case err == nil:
-					acks <- hack{obs: []any{"wok", n}}
-				case errors.Is(err, http.ErrHandlerTimeout):
-					acks <- hack{obs: []any{"wto"}, wto: true}
-				default:
-					acks <- hack{obs: []any{"werr"}}
-				}
-			case "chk":
-				select {
-				case <-r.Context().Done():
-					acks <- hack{obs: []any{"ctx", true}, ctxd: true}
-					goto ret
-				default:
-					acks <- hack{obs: []any{"ctx", false}}
-				}
-			case "panic":
-				panic(pv(num(a[1])))
+			ack, stop := doAction(w, r, a)
+			acks <- ack
+			if stop {
+				break
 			}
 		}
-	ret:
 		cmd := recvGate()
 		if cmd.selfCancel {
 			cancelParent()
@@ -323,12 +138,8 @@ func runRest(c Case) (out Out) {
 	case "sse":
 		req.Header.Set("Accept", "text/event-stream")
 	}
-	rw := &recw{hdr: http.Header{}, sret: &sret}
-	for _, kv := range c.H0 {
-		for _, v := range kv[1].([]any) {
-			rw.hdr.Add(hname(num(kv[0])), hval(num(v)))
-		}
-	}
+	rw := newRecw(c.H0, &sret)
+	rww := asWriter(rw, c.Fl)
 	if pre {
 		// the Done event precedes everything: ServeHTTP may enter its select with
 		// several cases ready (the handler runs ungated)
@@ -343,7 +154,7 @@ func runRest(c Case) (out Out) {
 		}()
 		rw.sgid = gid()
 		close(sStarted)
-		h.ServeHTTP(rw, req)
+		h.ServeHTTP(rww, req)
 	}()
 	<-sStarted
 	select {
@@ -385,16 +196,14 @@ func runRest(c Case) (out Out) {
 	emitS := func() {
 		// called once ServeHTTP has returned, in wrapped mode
 		sSeen = true
-		rw.mu.Lock()
-		st := rw.code
-		rw.mu.Unlock()
+		tor := rw.sawTimeoutReply()
 		switch {
 		case sPanic != nil:
 			emit("Sp")
 		case !hEnded:
 			emitD()
 			emit("St")
-		case c.D.Mode != "none" && (st == 499 || st == 503):
+		case c.D.Mode != "none" && tor:
 			emitD()
 			emit("St")
 		default:
@@ -439,9 +248,7 @@ func runRest(c Case) (out Out) {
 		}
 		timedOut := false
 		if returned && wrapped() && sPanic == nil {
-			rw.mu.Lock()
-			timedOut = rw.code == 499
-			rw.mu.Unlock()
+			timedOut = rw.sawTimeoutReply()
 		}
 		for i, o := range obs {
 			if timedOut && i == firstRefused {
@@ -548,19 +355,7 @@ func runRest(c Case) (out Out) {
 	hx.Quiesce(func(st string) bool {
 		return strings.Contains(st, "rest/handler.") && !hx.Blocked(st)
 	}, time.Second)
-	rw.mu.Lock()
-	defer rw.mu.Unlock()
-	if rw.wrote {
-		out.Status = rw.code
-	}
-	var e1, e2 int
-	out.Snap, e1 = hdrOut(rw.snap)
-	out.Live, e2 = hdrOut(rw.hdr)
-	out.Extra = e1 + e2
-	for _, b := range rw.body {
-		out.Body = append(out.Body, int(b))
-	}
-	out.Late, out.Foreign = rw.late, rw.foreign
+	out.W = rw.out()
 	out.HasDl = hasDl
 	if hasDl {
 		out.DlSeenNs = int64(dlSeen.Sub(tA))
